@@ -38,7 +38,7 @@ Proof. exact txpk_ipol_present. Qed.
    any state whose buffer entry holds a three-bit message type: every downlink that leaves carries delay 5 when its
    MHDR says join-accept and delay 1 otherwise (an uplink's handler can collect the join-accept a concurrent join left
    in the device's buffer entry - the forced-schedule correspondence runs exactly that on the real pipeline). *)
-From Lospan Require Import Model.FrameTypes Model.Frame Model.Store Model.Server Model.Steps Proof.LocalProof Proof.DelayProof.
+From Lospan Require Import Model.FrameTypes Model.Frame Model.Store Model.Server Model.Steps Proof.LocalProof Proof.DelayProof Proof.RadioProof.
 Theorem C17_delay_follows_the_frame_type :
   forall (E D : list N -> list N -> list N) apps ps sched fuel st,
     Forall (handler E D) ps -> fb_small st ->
@@ -46,7 +46,17 @@ Theorem C17_delay_follows_the_frame_type :
            (downs (snd (interleaveN apps sched fuel st ps []))).
 Proof. exact delay_follows_the_frame_type. Qed.
 
+(* Pipeline side, gateway and radio: whatever a received packet causes to be sent or published carries THAT packet's gateway
+   (identity, host, port, clock, protocol version) and radio parameters (data rate, channel, RF chain, frequency) - the downlink
+   is handed on for the gateway that reported the triggering uplink, to be sent at the uplink's data rate and frequency.
+   For every server state, every packet, every cipher. *)
+Theorem C17_downlink_is_for_the_uplinks_gateway_and_radio :
+  forall (E D : list N -> list N -> list N) s rx appnonce newaddr now,
+    Forall (follows rx) (snd (rx_event E D s rx appnonce newaddr now)).
+Proof. exact downlinks_follow_the_uplink. Qed.
+
 Print Assumptions C17_port_of_last_pull_data.
+Print Assumptions C17_downlink_is_for_the_uplinks_gateway_and_radio.
 Print Assumptions C17_txpk.
 Print Assumptions C17_keys_always_present.
 Print Assumptions C17_ipol_present.
